@@ -379,7 +379,7 @@ def _worker_main():
     sys.stdout = open(os.devnull, "w")
     for line in sys.stdin:
         idx, case = json.loads(line)
-        signal.setitimer(signal.ITIMER_REAL, prop.case_timeout)
+        signal.setitimer(signal.ITIMER_REAL, prop.case_timeout * TIMEOUT_SCALE)
         try:
             try:
                 obs = prop.impl(case)
@@ -423,7 +423,7 @@ def run_impl(prop, cases, extra_env=None):
                                  start_new_session=True)
             batch = pending[:BATCH]          # small batches: the hang counter is consulted between them
             inp = "".join(json.dumps([i, cases[i]]) + "\n" for i in batch)
-            budget = 30 + len(batch) * (prop.case_timeout + 0.5)
+            budget = 30 + len(batch) * (prop.case_timeout * float(env.get("VERIF_TIMEOUT_SCALE", "1")) + 0.5)
             try:
                 o, _ = p.communicate(inp, timeout=budget)
             except subprocess.TimeoutExpired:
@@ -455,7 +455,28 @@ def run_impl(prop, cases, extra_env=None):
     ts = [threading.Thread(target=work, args=(sh,)) for sh in shards]
     [t.start() for t in ts]
     [t.join() for t in ts]
+    # Observations that can also be produced by the machine rather than by the code under test (a time-out, a dead worker
+    # process, an exception of the harness itself) are looked at a second time: the case is run again alone, with nothing
+    # else of this check running and three times the time limit.  A definite observation replaces the first one and is
+    # judged like any other; a case that diverges / crashes again stays as it was.  Wrong results are never re-run.
+    if not (extra_env or {}).get("VERIF_TIMEOUT_SCALE"):
+        flaky = [i for i in range(n) if _is_flaky(results[i])][:RECHECK_MAX]
+        for i in flaky:
+            r = run_impl(prop, [cases[i]], dict(extra_env or {}, VERIF_TIMEOUT_SCALE="3"))[0]
+            RECHECK["rechecked"] += 1
+            if not _is_flaky(r) and not (isinstance(r, dict) and "skipped" in r):
+                results[i] = r
+                RECHECK["recovered"] += 1
     return results
+
+
+RECHECK_MAX = 6
+RECHECK = dict(rechecked=0, recovered=0)
+TIMEOUT_SCALE = float(os.environ.get("VERIF_TIMEOUT_SCALE", "1"))
+
+
+def _is_flaky(o):
+    return o == err(E["Diverges"]) or o == err(E["Crash"]) or (isinstance(o, dict) and "harness_error" in o)
 
 
 def prop_env(prop):
@@ -752,6 +773,7 @@ def run_check(prop, tier, seed, scratch, t0, n_override=None):
                             rule=prop.rule,
                             samples=samples[:3],
                             traces_validated_against_impl=sum(1 for c, m, i in zip(cases, mres, ires) if classify(prop, c, m, i) == "ok" and not (isinstance(i, dict) and "skipped" in i)),
+                            rerun_after_timeout_or_crash=dict(RECHECK),
                             skipped_after_hang_limit=sum(1 for i in ires if isinstance(i, dict) and "skipped" in i),
                             disagreements=len(corr_broken) + len(concrete),
                             extraction_cross_checked_in_coq=xs,
